@@ -257,6 +257,7 @@ def _get_object_shape_id(
     links_props: Optional[list[bool]] = None,
     links: Optional[list[bool]] = None,
     has_implicit_fields: bool = False,
+    sources: Optional[list[uuid.UUID]] = None,
 ) -> uuid.UUID:
     parts = [coll_type]
     parts.append(":".join(map(str, subtypes)))
@@ -266,6 +267,10 @@ def _get_object_shape_id(
         parts.append(":".join(chr(c._value_) for c in cardinalities))
     string_id = "\x00".join(parts)
     string_id += f'{has_implicit_fields!r};{links_props!r};{links!r}'
+    if sources:
+        # The source type of every element is part of the descriptor
+        # (`[is A].x` and `[is B].x` are different shape elements).
+        string_id += f';{":".join(map(str, sources))}'
     return uuidgen.uuid5(s_obj.TYPE_ID_NAMESPACE, string_id)
 
 
@@ -596,6 +601,7 @@ def _describe_object_shape(
         links_props=link_props,
         links=links,
         has_implicit_fields=implicit_id,
+        sources=[src.id for src in sources],
     )
 
     if type_id in ctx.uuid_to_pos:
